@@ -635,3 +635,47 @@ Fixpoint kbuf_write (b : Z) (bytes : list byte) (t : mt) : mt :=
                                          end, snd (fst e)), kbuf_write b bytes (snd e))) l)
   | _ => t
   end.
+
+(* ------------------------------------------------------------------ userdata of the stock serializer *)
+(* Any node may have been given the stock serializer json_object_userdata_to_json_string with a
+   text as userdata (json_object_set_serializer(n, json_object_userdata_to_json_string, text, del));
+   for doubles this is the retained number text of [jv].  The text lives in a block the node
+   releases through [del] (json_object_free_userdata) or — del = NULL — in memory that stays the
+   caller's.  [uanns]: one entry per non-null node, in pre-order.
+   json_object_copy_serializer_data, as written: the copy's text is ALWAYS a fresh strdup
+   (whatever del is) and  dst->_user_delete = src->_user_delete. *)
+Record udata := mk_ud { ud_text : list byte; ud_store : kstore; ud_delete : bool }.
+Definition uanns := list (option udata).
+
+Fixpoint copy_uanns (a : uanns) (n : Z) : uanns * Z :=
+  match a with
+  | [] => ([], n)
+  | None :: t => let (r, n') := copy_uanns t n in (None :: r, n')
+  | Some u :: t => let (r, n') := copy_uanns t (n + 1) in
+                   (Some (mk_ud (ud_text u) (KOwn n) (ud_delete u)) :: r, n')
+  end.
+
+Definition ud_stores (a : uanns) : list kstore :=
+  flat_map (fun o => match o with Some u => [ud_store u] | None => [] end) a.
+Definition ud_texts (a : uanns) : list (option (list byte * bool)) :=
+  map (option_map (fun u => (ud_text u, ud_delete u))) a.
+(* the caller overwrites (recycles, frees) its buffer [b] *)
+Definition ubuf_write (b : Z) (bytes : list byte) (a : uanns) : uanns :=
+  map (option_map (fun u => match ud_store u with
+                            | KBorrowed b' => if b' =? b then mk_ud bytes (ud_store u) (ud_delete u) else u
+                            | KOwn _ => u
+                            end)) a.
+(* library-allocated blocks that no node will ever release *)
+Definition unreleased (a : uanns) : list Z :=
+  flat_map (fun o => match o with
+                     | Some u => if ud_delete u then [] else store_addr (ud_store u)
+                     | None => []
+                     end) a.
+
+(* a tree in memory with its userdata, and its deep copy *)
+Definition mem_image := (mt * uanns)%type.
+Definition full_copy (s : mem_image) (n : Z) : mem_image * Z :=
+  let (c, n1) := mt_copy (fst s) n in
+  let (a, n2) := copy_uanns (snd s) n1 in
+  ((c, a), n2).
+Definition image_addrs (s : mem_image) : list Z := mem_addrs (fst s) ++ flat_map store_addr (ud_stores (snd s)).
